@@ -378,7 +378,9 @@ def harness_suite(binary, suite, root, rng_seed, cpus):
         for k in ("proto-hit", "stmt-hit"):
             stats[k] += h1.get(k, 0)
         if shared is None or plain is None:
-            bad.append(("harness-crash", "vh-memo %s mode failed: %s %s" % (mode, e1, e2), {"mode": mode, "seq": sq}))
+            bad.append(("harness-crash", "vh-memo %s mode: the run %s did not complete (shared caches: %r; no caches: %r)" % (
+                mode, "WITH shared caches" if shared is None and plain is not None else "without caches" if shared is not None else "in both modes",
+                e1, e2), {"mode": mode, "seq": sq, "shared_run": e1, "uncached_run": e2}))
             continue
         # reference per top: the FIRST request of every top in the run with every cache off
         # (fresh ProtoModuleCache per request, dut_reuse off)
